@@ -958,13 +958,9 @@ class FortranFile:
         self.hash = None
         text = change.get("text", "")
         change_range = change.get("range")
-        if len(text) == 0:
-            text_split = [""]
-        else:
-            text_split = splitlines(text)
-            # Check for ending newline
-            if (text[-1] == "\n") or (text[-1] == "\r"):
-                text_split.append("")
+        # ``splitlines`` already yields a trailing empty line for text ending in
+        # a line break (and ``[""]`` for empty text)
+        text_split = splitlines(text)
 
         if change_range is None:
             # The whole file has changed
